@@ -183,6 +183,14 @@ func VerifC11Walk() {
 	for _, n := range model {
 		verifrt.Assert(verifIndexOf(structural, n) >= 0, "the structural walk visits every modelled node")
 	}
+	// map literals are value nodes without identity: compare their number
+	entered := 0
+	for _, e := range rec.events {
+		if _, isMap := e.node.(cypher.MapLiteral); isMap && e.kind == 'E' {
+			entered++
+		}
+	}
+	verifrt.Assert(entered == verifrt.CountMaps(m, verifCypherPkg+".MapLiteral"), "the structural walk visits every map literal of the model, empty ones included")
 }
 
 // VerifC11Cancel: consume / done / error at any callback of the structural or semantic walk.
